@@ -1,8 +1,766 @@
 import CuqiVerif.Model.C12
+import Mathlib.Tactic.Ring
+import Mathlib.Analysis.InnerProductSpace.Basic
+import Mathlib.Analysis.InnerProductSpace.LinearMap
+import Mathlib.Analysis.Calculus.FDeriv.Comp
+import Mathlib.Analysis.Calculus.FDeriv.Linear
+
+/-!
+# C12 — property theorems
+
+All statements are about the definitions of `Model/C12.lean` that the driver executes
+(`applyOne`, `applyFunc`, `forward`, `gradientOne`, `checkGradient`, `vecMat`, …), for an arbitrary
+carrier of numbers, arbitrary geometry maps and an arbitrary forward function; the analytic
+statement (`gradient_chain_rule_*`) instantiates the carrier with real inner-product spaces.
+
+Hypotheses that exclude an input class on which the code misbehaves are spelled out, the theorem
+is then called `…_partial`, and a `…_counterexample` shows the misbehaviour on a concrete instance.
+-/
 
 namespace CuqiVerif.C12
 
-/-- placeholder while the harness is brought up -/
-theorem lift1_data {α β : Type} (k : Bool) (f : α → β) (v : Val α) : (lift1 k f v).data = f v.data := rfl
+variable {α β : Type}
+
+/-! ## vocabulary -/
+
+/-- A user callable of one argument acts on the numbers by `F₀` and, like every numpy expression,
+    returns either a plain array or an array that inherits the subclass attributes of its argument. -/
+def FuncLike (func : Val α → Except Err (Val β)) (F₀ : α → β) : Prop :=
+  ∀ v, ∃ t, func v = .ok ⟨F₀ v.data, t⟩ ∧ (t = none ∨ t = v.tag)
+
+/-- Same for a callable of two arguments (`gradient(direction, wrt)`). -/
+def GradLike (gf : Val β → Val α → Except Err (Val α)) (g₀ : β → α → α) : Prop :=
+  ∀ a b, ∃ t, gf a b = .ok ⟨g₀ a.data b.data, t⟩ ∧ (t = none ∨ t = a.tag ∨ t = b.tag)
+
+/-- The geometry compared with itself is equal (never raises), with its own maps. -/
+def SelfOK (G : Geom α) : Prop := ∀ b, geomEq ⟨b, G.gid⟩ G = .ok (some G.maps)
+
+/-- Comparing the geometry object `g` with `G` does not raise, and if they compare equal then
+    `g`'s `fun2par` is `G`'s.  (False for `Discrete(4)` vs `Discrete(3)` — raises — and for the
+    default geometry vs an expansion geometry on the same grid — equal with different maps.) -/
+def CrossOK (g : Nat) (G : Geom α) : Prop :=
+  ∃ o, (∀ b, geomEq ⟨b, g⟩ G = .ok o) ∧ ∀ m, o = some m → m.f2p = G.f2p
+
+/-- what `forward` must return for the numbers `w` produced by the forward function:
+    `fun2par` of the range geometry, with the given wrapping -/
+def outOf (R : Geom β) (w : β) (tag : Option Tag) : Except Err (Val β) :=
+  R.f2p w >>= fun p => pure ⟨p, tag⟩
+
+@[simp] lemma ok_bind {γ δ : Type} (a : γ) (f : γ → Except Err δ) : (Except.ok a >>= f) = f a := rfl
+@[simp] lemma error_bind {γ δ : Type} (e : Err) (f : γ → Except Err δ) : (Except.error e >>= f) = Except.error e := rfl
+@[simp] lemma pure_eq_ok {γ : Type} (a : γ) : (pure a : Except Err γ) = Except.ok a := rfl
+@[simp] lemma throw_eq_error {γ : Type} (e : Err) : (throw e : Except Err γ) = Except.error e := rfl
+
+lemma bind_eq_ok {γ δ : Type} {x : Except Err γ} {f : γ → Except Err δ} {y : δ}
+    (h : (x >>= f) = .ok y) : ∃ a, x = .ok a ∧ f a = .ok y := by
+  cases x with
+  | error e => cases h
+  | ok a => exact ⟨a, rfl, h⟩
+
+theorem selfOK_of_noRaise (G : Geom α) (h : G.eqRaises.lookup G.gid = none) : SelfOK G := by
+  intro b; simp [geomEq, h]
+
+theorem crossOK_of_unrelated (g : Nat) (G : Geom α) (h1 : G.eqRaises.lookup g = none)
+    (h2 : g ≠ G.gid) (h3 : G.eqTrue.lookup g = none) : CrossOK g G := by
+  refine ⟨none, ?_, by intro m hm; cases hm⟩
+  intro b; simp [geomEq, h1, h2, h3]
+
+/-! ## 1. forward: every representation of the input gives the same output -/
+
+private lemma toPar_plain (R : Geom β) (w : β) :
+    toPar R ⟨w, none⟩ false false = outOf R w none := by
+  simp only [toPar, outOf, Bool.not_false, if_true, Bool.false_eq_true, if_false, bind_assoc, pure_bind]
+
+private lemma toPar_tagged (R : Geom β) (w : β) (g : Nat) (hc : CrossOK g R) (t : Option Tag)
+    (ht : t = none ∨ t = some ⟨false, g⟩) :
+    toPar R ⟨w, t⟩ true false = outOf R w (some ⟨true, R.gid⟩) := by
+  obtain ⟨o, ho, hm⟩ := hc
+  rcases ht with rfl | rfl
+  · simp only [toPar, outOf, Bool.not_false, if_true, bind_assoc, pure_bind]
+  · simp only [toPar, outOf, ho false, ok_bind]
+    cases o with
+    | none => simp [bind_assoc]
+    | some m => simp [arrParameters, hm m rfl, bind_assoc]
+
+lemma applyOne_plain_par (D : Geom α) (R : Geom β)
+    (func : Val α → Except Err (Val β)) (F₀ : α → β) (hf : FuncLike func F₀) (x : α) :
+    applyOne func R D ⟨x, none⟩ true = outOf R (F₀ (D.p2f x)) none := by
+  obtain ⟨t, h, ht⟩ := hf ⟨D.p2f x, none⟩
+  have : t = none := by rcases ht with h | h <;> exact h
+  subst this
+  have h1 : toFun D ⟨x, none⟩ true = .ok ⟨D.p2f x, none⟩ := by simp [toFun]
+  simp only [applyOne, h1, ok_bind, h, Option.isSome_none]
+  exact toPar_plain R _
+
+/-- **Forward is representation-invariant.**  For a parameter vector `x` of the domain geometry the
+    four single-array representations — `x` as plain parameters; `par2fun x` flagged `is_par=False`;
+    a CUQIarray of the domain geometry holding `x` (parameters) or `par2fun x` (function values),
+    whatever the `is_par` argument says — all return `fun2par_R (F (par2fun_D x))`, as a plain array
+    for plain input and as a CUQIarray flagged parameters on the range geometry for CUQIarray
+    input.  No round-trip property of the domain geometry is needed.
+    `_partial`: the comparison of the domain geometry object with the range geometry must be well
+    behaved (`CrossOK`), which the code does not guarantee (see the two counterexamples). -/
+theorem forward_representation_invariant_partial (D : Geom α) (R : Geom β)
+    (func : Val α → Except Err (Val β)) (F₀ : α → β) (hf : FuncLike func F₀)
+    (hs : SelfOK D) (hc : CrossOK D.gid R) (x : α) :
+    applyOne func R D ⟨x, none⟩ true = outOf R (F₀ (D.p2f x)) none
+    ∧ applyOne func R D ⟨D.p2f x, none⟩ false = outOf R (F₀ (D.p2f x)) none
+    ∧ (∀ b, applyOne func R D ⟨x, some ⟨true, D.gid⟩⟩ b = outOf R (F₀ (D.p2f x)) (some ⟨true, R.gid⟩))
+    ∧ (∀ b, applyOne func R D ⟨D.p2f x, some ⟨false, D.gid⟩⟩ b
+          = outOf R (F₀ (D.p2f x)) (some ⟨true, R.gid⟩)) := by
+  refine ⟨?_, ?_, ?_, ?_⟩
+  · obtain ⟨t, h, ht⟩ := hf ⟨D.p2f x, none⟩
+    have : t = none := by rcases ht with h | h <;> exact h
+    subst this
+    have h1 : toFun D ⟨x, none⟩ true = .ok ⟨D.p2f x, none⟩ := by simp [toFun]
+    simp only [applyOne, h1, ok_bind, h, Option.isSome_none]
+    exact toPar_plain R _
+  · obtain ⟨t, h, ht⟩ := hf ⟨D.p2f x, none⟩
+    have : t = none := by rcases ht with h | h <;> exact h
+    subst this
+    have h1 : toFun D ⟨D.p2f x, none⟩ false = .ok ⟨D.p2f x, none⟩ := by simp [toFun]
+    simp only [applyOne, h1, ok_bind, h, Option.isSome_none]
+    exact toPar_plain R _
+  · intro b
+    obtain ⟨t, h, ht⟩ := hf ⟨D.p2f x, some ⟨false, D.gid⟩⟩
+    have h1 : toFun D ⟨x, some ⟨true, D.gid⟩⟩ b = .ok ⟨D.p2f x, some ⟨false, D.gid⟩⟩ := by
+      simp [toFun, hs true, arrFunvals, Geom.maps]
+    simp only [applyOne, h1, ok_bind, h, Option.isSome_some]
+    exact toPar_tagged R _ D.gid hc t ht
+  · intro b
+    obtain ⟨t, h, ht⟩ := hf ⟨D.p2f x, some ⟨false, D.gid⟩⟩
+    have h1 : toFun D ⟨D.p2f x, some ⟨false, D.gid⟩⟩ b = .ok ⟨D.p2f x, some ⟨false, D.gid⟩⟩ := by
+      simp [toFun, hs false, arrFunvals, Geom.maps]
+    simp only [applyOne, h1, ok_bind, h, Option.isSome_some]
+    exact toPar_tagged R _ D.gid hc t ht
+
+/-- non-vacuity: an identity-like domain, a scaling range geometry, a tag-propagating `F` -/
+example :
+    let D : Geom Int := { gid := 0, p2f := fun p => p + 1, f2p := fun f => pure (f - 1), identityType := false, grad := none, parDim := 1 }
+    let R : Geom Int := { gid := 1, p2f := fun p => 2 * p, f2p := fun f => pure (f / 2), identityType := false, grad := none, parDim := 1 }
+    applyOne (fun v => pure (lift1 true (fun f => 4 * f) v)) R D ⟨3, some ⟨true, 0⟩⟩ false
+      = .ok ⟨8, some ⟨true, 1⟩⟩ := by rfl
+
+/-- **Sample collections are mapped column by column**, each column exactly as the plain parameter
+    vector it holds, and the result is a `Samples` object on the range geometry.  (The flag of the
+    collection and the `is_par` argument do not occur on the right-hand side: they are ignored —
+    correct for parameter samples, see `forward_samples_flag_ignored_counterexample`.) -/
+theorem forward_samples_columnwise (D : Geom α) (R : Geom β)
+    (func : Val α → Except Err (Val β)) (F₀ : α → β) (hf : FuncLike func F₀)
+    (cols : List α) (flag : Bool) (g : Nat) (b : Bool) :
+    applyFunc func R D (.samples cols flag g) b
+      = (cols.mapM (fun c => R.f2p (F₀ (D.p2f c)))) >>= fun outs => pure (.samples outs R.gid) := by
+  have hcol : ∀ c, (applyOne func R D (Val.plain c) true >>= fun p => pure p.data)
+      = R.f2p (F₀ (D.p2f c)) := by
+    intro c
+    rw [Val.plain, applyOne_plain_par D R func F₀ hf c, outOf]
+    cases R.f2p (F₀ (D.p2f c)) <;> rfl
+  simp only [applyFunc]
+  congr 1
+  exact congrArg (fun f => List.mapM f cols) (funext hcol)
+
+/-- each column of the output is the output of the corresponding parameter vector -/
+theorem forward_samples_column (D : Geom α) (R : Geom β)
+    (func : Val α → Except Err (Val β)) (F₀ : α → β) (hf : FuncLike func F₀)
+    (hf2p : ∀ w, ∃ p, R.f2p w = .ok p)
+    (cols : List α) (flag : Bool) (g : Nat) (b : Bool) :
+    ∃ outs, applyFunc func R D (.samples cols flag g) b = .ok (.samples outs R.gid)
+      ∧ outs.length = cols.length
+      ∧ ∀ j (hj : j < cols.length) (hj' : j < outs.length),
+          applyOne func R D ⟨cols[j], none⟩ true = .ok ⟨outs[j], none⟩ := by
+  rw [forward_samples_columnwise D R func F₀ hf]
+  have key : ∀ cs : List α, ∃ outs, cs.mapM (fun c => R.f2p (F₀ (D.p2f c))) = .ok outs
+      ∧ outs.length = cs.length
+      ∧ ∀ j (hj : j < cs.length) (hj' : j < outs.length), R.f2p (F₀ (D.p2f cs[j])) = .ok outs[j] := by
+    intro cs
+    induction cs with
+    | nil => exact ⟨[], by simp, rfl, by intro j hj; simp at hj⟩
+    | cons c cs ih =>
+      obtain ⟨outs, h1, h2, h3⟩ := ih
+      obtain ⟨p, hp⟩ := hf2p (F₀ (D.p2f c))
+      refine ⟨p :: outs, by simp [List.mapM_cons, hp, h1], by simp [h2], ?_⟩
+      intro j hj hj'
+      cases j with
+      | zero => simpa using hp
+      | succ k => simpa using h3 k (by simpa using hj) (by simpa using hj')
+  obtain ⟨outs, h1, h2, h3⟩ := key cols
+  refine ⟨outs, by simp [h1], h2, ?_⟩
+  intro j hj hj'
+  rw [applyOne_plain_par D R func F₀ hf, outOf, h3 j hj hj']
+  rfl
+
+example : applyFunc (fun v => pure (lift1 true (fun f : Int => 4 * f) v))
+      { gid := 1, p2f := fun p => 2 * p, f2p := fun f => pure (f / 2), identityType := false, grad := none, parDim := 1 }
+      { gid := 0, p2f := fun p => p + 1, f2p := fun f => pure (f - 1), identityType := false, grad := none, parDim := 1 }
+      (.samples [3, 0] true 0) true = .ok (.samples [8, 2] 1) := by rfl
+
+/-- **Wrapped like the input**, for *every* array input (also arrays carrying a foreign geometry):
+    whenever `forward` returns, the result is a CUQIarray iff the input was one, and then it is
+    flagged parameters and carries the range geometry. -/
+theorem wrap_like_input (D : Geom α) (R : Geom β)
+    (func : Val α → Except Err (Val β)) (F₀ : α → β) (hf : FuncLike func F₀)
+    (x : Val α) (b : Bool) (y : Val β) (h : applyOne func R D x b = .ok y) :
+    y.tag = if x.tag.isSome then some ⟨true, R.gid⟩ else none := by
+  unfold applyOne at h
+  cases hx : toFun D x b with
+  | error e => rw [hx] at h; cases h
+  | ok xf =>
+    rw [hx, ok_bind] at h
+    obtain ⟨t, hfx, ht⟩ := hf xf
+    rw [hfx, ok_bind] at h
+    cases hxt : x.tag with
+    | some tg =>
+      simp only [hxt, Option.isSome_some, if_true] at h ⊢
+      unfold toPar at h
+      obtain ⟨r, -, hr⟩ := bind_eq_ok h
+      simp at hr
+      rw [← hr]
+    | none =>
+      have hxf : xf.tag = none := by
+        unfold toFun at hx
+        simp only [hxt] at hx
+        split at hx
+        · simp at hx; rw [← hx]
+        · simp at hx; rw [← hx]; exact hxt
+      have : t = none := by rcases ht with h' | h' <;> simp [h', hxf]
+      subst this
+      simp only [hxt, Option.isSome_none, Bool.false_eq_true, if_false, toPar_plain, outOf] at h ⊢
+      obtain ⟨p, -, hp⟩ := bind_eq_ok h
+      simp at hp
+      rw [← hp]
+
+/-! ### the three input classes on which `forward` departs from the property -/
+
+/-- **Defect (Samples flag ignored).**  A collection flagged `is_par=False` holding the function
+    value `4 = par2fun 2` is treated as the *parameter* 4 (output `16`), whereas the same function
+    value passed as an array with `is_par=False` gives the output `8` of the parameter `2`. -/
+theorem forward_samples_flag_ignored_counterexample :
+    let D : Geom Int := { gid := 0, p2f := fun p => 2 * p, f2p := fun f => pure (f / 2), identityType := false, grad := none, parDim := 1 }
+    let R : Geom Int := { gid := 1, p2f := id, f2p := pure, identityType := true, grad := none, parDim := 1 }
+    let func : Val Int → Except Err (Val Int) := fun v => pure (lift1 true (fun f => 2 * f) v)
+    applyFunc func R D (.samples [4] false 0) false = .ok (.samples [16] 1)
+    ∧ applyOne func R D ⟨4, none⟩ false = .ok ⟨8, none⟩
+    ∧ applyOne func R D ⟨2, none⟩ true = .ok ⟨8, none⟩ := by
+  refine ⟨by rfl, by rfl, by rfl⟩
+
+/-- **Defect (geometry comparison raises).**  When evaluating `domain_geometry == range_geometry`
+    raises (`Discrete(4)` vs `Discrete(3)`), a CUQIarray input makes `forward` raise although the
+    plain array works. -/
+theorem forward_geometry_eq_raises_counterexample :
+    let D : Geom Int := { gid := 0, p2f := id, f2p := pure, identityType := true, grad := none, parDim := 1 }
+    let R : Geom Int := { gid := 1, p2f := id, f2p := pure, identityType := true, grad := none, parDim := 1,
+                          eqRaises := [(0, Err.indexError)] }
+    let func : Val Int → Except Err (Val Int) := fun v => pure (lift1 true (fun f => 2 * f) v)
+    applyOne func R D ⟨3, none⟩ true = .ok ⟨6, none⟩
+    ∧ applyOne func R D ⟨3, some ⟨true, 0⟩⟩ true = .error Err.indexError := by
+  refine ⟨by rfl, by rfl⟩
+
+/-- **Defect (loose geometry equality).**  When the domain geometry compares equal to a range
+    geometry with a different `fun2par` (default geometry vs an expansion on the same grid), a
+    CUQIarray input is converted with the *domain* geometry's `fun2par` (here the identity:
+    output `6`), a plain array with the range geometry's (output `3`). -/
+theorem forward_loose_eq_counterexample :
+    let D : Geom Int := { gid := 0, p2f := id, f2p := pure, identityType := true, grad := none, parDim := 1 }
+    let R : Geom Int := { gid := 1, p2f := fun p => 2 * p, f2p := fun f => pure (f / 2), identityType := false, grad := none, parDim := 1,
+                          eqTrue := [(0, D.maps)] }
+    let func : Val Int → Except Err (Val Int) := fun v => pure (lift1 true (fun f => 2 * f) v)
+    applyOne func R D ⟨3, none⟩ true = .ok ⟨3, none⟩
+    ∧ applyOne func R D ⟨3, some ⟨true, 0⟩⟩ true = .ok ⟨6, some ⟨true, 1⟩⟩ := by
+  refine ⟨by rfl, by rfl⟩
+
+/-! ## 2. a distribution only renames the input -/
+
+/-- **`forward(distribution)` only renames.**  It succeeds exactly when the arguments parse and the
+    dimension matches, and then the new object has `_non_default_args = [name]` and every other
+    attribute (functions, geometries, subclass attributes) unchanged; the model is a value, so the
+    original is untouched by construction. -/
+theorem rename_only_renames (m : ModelObj α β) (nPos : Nat) (kw : List String) (dim : Nat)
+    (name : String) (b : Bool) :
+    (∀ m', forward m nPos kw (.dist dim name) b = .ok (.model m') →
+        m'.nonDefaultArgs = [name] ∧ m'.forwardFunc = m.forwardFunc ∧ m'.gradientFunc = m.gradientFunc
+        ∧ m'.rangeGeom = m.rangeGeom ∧ m'.domainGeom = m.domainGeom ∧ m'.extra = m.extra)
+    ∧ ((∃ m', forward m nPos kw (.dist dim name) b = .ok (.model m'))
+        ↔ (∃ ks, parseArgs m.nonDefaultArgs nPos kw = .ok ks) ∧ dim = m.domainGeom.parDim)
+    ∧ (∀ y, forward m nPos kw (.dist dim name) b ≠ .ok (.data y)) := by
+  unfold forward
+  cases hp : parseArgs m.nonDefaultArgs nPos kw with
+  | error e => simp
+  | ok ks =>
+    by_cases hd : dim = m.domainGeom.parDim
+    · simp [hd]
+    · simp [hd]
+
+/-- after renaming, data passed under the new keyword is treated exactly as the original model
+    treats data passed positionally -/
+theorem rename_then_forward (m : ModelObj α β) (a name : String) (hm : m.nonDefaultArgs = [a])
+    (x : Input α) (b : Bool) :
+    forward { m with nonDefaultArgs := [name] } 0 [name] (.data x) b = forward m 1 [] (.data x) b := by
+  simp [forward, parseArgs, sameNameSet, hm]
+
+example : parseArgs ["x"] 0 ["y"] = .error Err.valueError := by rfl
+example : parseArgs ["x"] 1 ["x"] = .error Err.valueError := by rfl
+example : parseArgs ["x"] 1 [] = .ok ["x"] := by rfl
+
+/-! ## 3. gradient: refusal -/
+
+/-- every ingredient of the gradient exists: a gradient (or Jacobian) function, an identity-like
+    range geometry, and a domain geometry that is identity-like or provides `gradient` -/
+def Formable (m : ModelObj α β) : Prop :=
+  m.gradientFunc.isSome = true ∧ m.rangeGeom.identityType = true
+    ∧ (m.domainGeom.grad.isSome = true ∨ m.domainGeom.identityType = true)
+
+/-- the check passes exactly for formable configurations and array (non-`Samples`) arguments -/
+theorem checkGradient_ok_iff (m : ModelObj α β) (ds ws : Bool) :
+    checkGradient m ds ws = .ok () ↔ Formable m ∧ ds = false ∧ ws = false := by
+  unfold checkGradient Formable
+  cases m.gradientFunc.isNone.eq_false_or_eq_true with
+  | inl h1 =>
+    have h1' : m.gradientFunc.isSome = false := by
+      cases hg : m.gradientFunc <;> simp_all
+    simp [h1, h1']
+  | inr h1 =>
+    have h1' : m.gradientFunc.isSome = true := by
+      cases hg : m.gradientFunc <;> simp_all
+    cases ds <;> cases ws <;> cases h2 : m.rangeGeom.identityType <;>
+      cases h3 : m.domainGeom.grad <;> cases h4 : m.domainGeom.identityType <;> simp [h1, h1']
+
+/-- **Refusal, part 1.**  Outside the formable configurations `gradient` never returns a value,
+    whatever the representations of direction and linearisation point. -/
+theorem gradient_refused_not_formable (m : ModelObj α β) (h : ¬ Formable m) (dir : Val β) (wrt : Val α)
+    (idp iwp : Bool) (v : Val α) : gradientOne m dir wrt idp iwp ≠ .ok v := by
+  intro hv
+  unfold gradientOne at hv
+  obtain ⟨wp, -, h1⟩ := bind_eq_ok hv
+  obtain ⟨u, h2, -⟩ := bind_eq_ok h1
+  exact h ((checkGradient_ok_iff m false false).1 h2).1
+
+/-- **Refusal, part 2.**  A `Samples` object as direction or linearisation point is refused. -/
+theorem gradient_refused_samples (m : ModelObj α β) (dir : GArg β) (wrt : GArg α) (idp iwp : Bool)
+    (hs : dir = .samples ∨ wrt = .samples) (r : Except Err (Val α)) (v : Val α)
+    (h : gradient m dir wrt idp iwp = some r) : r ≠ .ok v := by
+  intro hv
+  subst hv
+  cases dir with
+  | samples =>
+    cases wrt with
+    | samples =>
+      simp only [gradient] at h
+      split at h
+      · simp at h
+        obtain ⟨u, h2, h3⟩ := bind_eq_ok h
+        cases h3
+      · cases h
+    | one w =>
+      simp only [gradient] at h
+      simp at h
+      obtain ⟨wp, -, h1⟩ := bind_eq_ok h
+      obtain ⟨u, h2, h3⟩ := bind_eq_ok h1
+      cases h3
+  | one d =>
+    rcases hs with hs | hs
+    · cases hs
+    · subst hs
+      simp only [gradient] at h
+      split at h
+      · simp at h
+        obtain ⟨u, h2, h3⟩ := bind_eq_ok h
+        cases h3
+      · cases h
+
+/-- **Refusal, part 3.**  A linearisation point given as function values that the domain geometry
+    cannot convert to parameters (`fun2par` raises `e`) is refused with the same class. -/
+theorem gradient_refused_no_fun2par (m : ModelObj α β) (dir : Val β) (f : α) (idp : Bool) (e : Err)
+    (he : m.domainGeom.f2p f = .error e) : gradientOne m dir ⟨f, none⟩ idp false = .error e := by
+  simp [gradientOne, toPar, he]
+
+example :
+    let G : Geom Int := { gid := 1, p2f := id, f2p := pure, identityType := true, grad := none, parDim := 1 }
+    let m : ModelObj Int Int := { forwardFunc := fun v => pure v, gradientFunc := none, rangeGeom := G,
+                                  domainGeom := G, nonDefaultArgs := ["x"] }
+    checkGradient m false false = .error Err.notImplemented := by rfl
+
+/-! ## 4. gradient: value -/
+
+/-- the user attribute `gradient(direction, wrt_par)` of a geometry acts on the numbers by `gg₀`;
+    its result is plain or inherits the subclass of one of its arguments -/
+def GeomGradLike (gg : Val α → Val α → Val α) (gg₀ : α → α → α) : Prop :=
+  ∀ a b, (gg a b).data = gg₀ a.data b.data ∧ ((gg a b).tag = none ∨ (gg a b).tag = a.tag ∨ (gg a b).tag = b.tag)
+
+/-- … and never inherits from its *first* argument (the function-space gradient) -/
+def GeomGradSafe (gg : Val α → Val α → Val α) (gg₀ : α → α → α) : Prop :=
+  ∀ a b, (gg a b).data = gg₀ a.data b.data ∧ ((gg a b).tag = none ∨ (gg a b).tag = b.tag)
+
+/-- the numbers `gradient` must return for direction `d` (parameters of the range geometry) at the
+    parameter `x`: `fun2par_D (g₀ (par2fun_R d) (par2fun_D x))` for an identity-like domain, and
+    `gg₀ (g₀ (par2fun_R d) (par2fun_D x)) x` when the domain geometry provides `gradient` -/
+def gradData (D : Geom α) (R : Geom β) (g₀ : β → α → α) (gg₀ : Option (α → α → α)) (d : β) (x : α) :
+    Except Err α :=
+  match gg₀ with
+  | none => D.f2p (g₀ (R.p2f d) (D.p2f x))
+  | some gg₀ => pure (gg₀ (g₀ (R.p2f d) (D.p2f x)) x)
+
+/-- `gradient` once the checks have passed -/
+lemma gradientOne_formable (m : ModelObj α β) (gf : Val β → Val α → Except Err (Val α))
+    (hgf : m.gradientFunc = some gf) (hF : Formable m) (dir : Val β) (wrt : Val α) (idp iwp : Bool) :
+    gradientOne m dir wrt idp iwp =
+      (toPar m.domainGeom wrt false iwp >>= fun wrtPar =>
+       toFun m.domainGeom wrt iwp >>= fun wrtF =>
+       toFun m.rangeGeom dir idp >>= fun dirF =>
+       gf dirF wrtF >>= fun g =>
+       match m.domainGeom.grad with
+       | some gg => toPar m.domainGeom (gg g wrtPar) dir.tag.isSome true
+       | none => toPar m.domainGeom g dir.tag.isSome false) := by
+  unfold gradientOne
+  rw [(checkGradient_ok_iff m false false).2 ⟨hF, rfl, rfl⟩]
+  simp only [ok_bind, hgf]
+  rfl
+
+private lemma toPar_final_none (D : Geom α) (hs : SelfOK D) (w : α) (t : Option Tag)
+    (ht : t = none ∨ t = some ⟨false, D.gid⟩) :
+    (toPar D ⟨w, t⟩ false false >>= fun v => pure v.data) = D.f2p w := by
+  rcases ht with rfl | rfl
+  · simp only [toPar_plain, outOf]
+    cases D.f2p w <;> rfl
+  · simp only [toPar, hs false, ok_bind, arrParameters, Geom.maps, Bool.false_eq_true, if_false]
+    cases D.f2p w <;> rfl
+
+private lemma toPar_final_some (D : Geom α) (hs : SelfOK D) (w : α) (t : Option Tag)
+    (ht : t = none ∨ t = some ⟨true, D.gid⟩) :
+    (toPar D ⟨w, t⟩ false true >>= fun v => pure v.data) = .ok w := by
+  rcases ht with rfl | rfl
+  · simp [toPar]
+  · simp [toPar, hs true, arrParameters]
+
+/-- **Value of the gradient, and its invariance under the representation of the linearisation
+    point.**  In a formable configuration, for a plain direction `d` and the four representations
+    of the parameter `x` (plain parameters; plain function values with `is_wrt_par=False`;
+    CUQIarray of the domain geometry flagged parameters / function values) the numbers returned are
+    `gradData` — the user's direction-Jacobian product evaluated at `par2fun_D x`, followed by the
+    geometry's `gradient` at the parameter `x` if it has one, else by `fun2par_D`.
+    Hypotheses: `fun2par_D (par2fun_D x) = x` (only used by the two function-value forms);
+    `_partial`: the geometry's `gradient` must not hand down the subclass attributes of its first
+    argument (`GeomGradSafe`), otherwise the code applies `fun2par` to the parameter-space gradient
+    (`gradient_stale_flag_counterexample`). -/
+theorem gradient_representation_invariant_partial (m : ModelObj α β)
+    (gf : Val β → Val α → Except Err (Val α)) (g₀ : β → α → α)
+    (hgf : m.gradientFunc = some gf) (hG : GradLike gf g₀) (hF : Formable m)
+    (gg₀ : Option (α → α → α))
+    (hgg : match m.domainGeom.grad, gg₀ with
+           | some gg, some gg₀ => GeomGradSafe gg gg₀
+           | none, none => True
+           | _, _ => False)
+    (hs : SelfOK m.domainGeom) (d : β) (x : α)
+    (hrt : m.domainGeom.f2p (m.domainGeom.p2f x) = .ok x) :
+    let D := m.domainGeom
+    let want := gradData D m.rangeGeom g₀ gg₀ d x
+    (gradientOne m ⟨d, none⟩ ⟨x, none⟩ true true >>= fun v => pure v.data) = want
+    ∧ (gradientOne m ⟨d, none⟩ ⟨D.p2f x, none⟩ true false >>= fun v => pure v.data) = want
+    ∧ (∀ b, (gradientOne m ⟨d, none⟩ ⟨x, some ⟨true, D.gid⟩⟩ true b >>= fun v => pure v.data) = want)
+    ∧ (∀ b, (gradientOne m ⟨d, none⟩ ⟨D.p2f x, some ⟨false, D.gid⟩⟩ true b >>= fun v => pure v.data) = want) := by
+  intro D want
+  have hdir : toFun m.rangeGeom ⟨d, none⟩ true = .ok ⟨m.rangeGeom.p2f d, none⟩ := by simp [toFun]
+  -- the four (wrt_par, wrt funvals) pairs
+  have p1 : toPar D ⟨x, none⟩ false true = .ok ⟨x, none⟩ := by simp [toPar]
+  have f1 : toFun D ⟨x, none⟩ true = .ok ⟨D.p2f x, none⟩ := by simp [toFun]
+  have p2 : toPar D ⟨D.p2f x, none⟩ false false = .ok ⟨x, none⟩ := by simp [toPar, D, hrt]
+  have f2 : toFun D ⟨D.p2f x, none⟩ false = .ok ⟨D.p2f x, none⟩ := by simp [toFun]
+  have p3 : ∀ b, toPar D ⟨x, some ⟨true, D.gid⟩⟩ false b = .ok ⟨x, some ⟨true, D.gid⟩⟩ := by
+    intro b; simp [toPar, hs true, D, arrParameters]
+  have f3 : ∀ b, toFun D ⟨x, some ⟨true, D.gid⟩⟩ b = .ok ⟨D.p2f x, some ⟨false, D.gid⟩⟩ := by
+    intro b; simp [toFun, hs true, D, arrFunvals, Geom.maps]
+  have p4 : ∀ b, toPar D ⟨D.p2f x, some ⟨false, D.gid⟩⟩ false b = .ok ⟨x, some ⟨true, D.gid⟩⟩ := by
+    intro b; simp [toPar, hs false, D, arrParameters, Geom.maps, hrt]
+  have f4 : ∀ b, toFun D ⟨D.p2f x, some ⟨false, D.gid⟩⟩ b = .ok ⟨D.p2f x, some ⟨false, D.gid⟩⟩ := by
+    intro b; simp [toFun, hs false, D, arrFunvals, Geom.maps]
+  -- common tail: given wrt_par = ⟨x, tp⟩ and wrt funvals = ⟨p2f x, tf⟩ with harmless tags
+  have tail : ∀ (tp tf : Option Tag), (tp = none ∨ tp = some ⟨true, D.gid⟩) →
+      (tf = none ∨ tf = some ⟨false, D.gid⟩) →
+      ((gf ⟨m.rangeGeom.p2f d, none⟩ ⟨D.p2f x, tf⟩ >>= fun g =>
+        match m.domainGeom.grad with
+        | some gg => toPar m.domainGeom (gg g ⟨x, tp⟩) false true
+        | none => toPar m.domainGeom g false false) >>= fun v => pure v.data) = want := by
+    intro tp tf htp htf
+    obtain ⟨t, hg, ht⟩ := hG ⟨m.rangeGeom.p2f d, none⟩ ⟨D.p2f x, tf⟩
+    change gf _ _ = .ok ⟨g₀ (m.rangeGeom.p2f d) (D.p2f x), t⟩ at hg
+    change t = none ∨ t = none ∨ t = tf at ht
+    rw [hg, ok_bind]
+    have ht' : t = none ∨ t = some ⟨false, D.gid⟩ := by
+      rcases ht with h | h | h
+      · exact Or.inl h
+      · exact Or.inl h
+      · rcases htf with h' | h' <;> simp_all
+    cases hgr : m.domainGeom.grad with
+    | none =>
+      cases gg₀ with
+      | some _ => simp [hgr] at hgg
+      | none => simpa [want, gradData] using toPar_final_none D hs _ t ht'
+    | some gg =>
+      cases gg₀ with
+      | none => simp [hgr] at hgg
+      | some gg₀ =>
+        simp only [hgr] at hgg
+        obtain ⟨hd, htag⟩ := hgg ⟨g₀ (m.rangeGeom.p2f d) (D.p2f x), t⟩ ⟨x, tp⟩
+        dsimp only at hd htag ⊢
+        generalize gg ⟨g₀ (m.rangeGeom.p2f d) (D.p2f x), t⟩ ⟨x, tp⟩ = v at hd htag ⊢
+        obtain ⟨vd, vt⟩ := v
+        dsimp only at hd htag
+        subst hd
+        have htag' : vt = none ∨ vt = some ⟨true, D.gid⟩ := by
+          rcases htag with h | h
+          · exact Or.inl h
+          · rcases htp with h' | h' <;> simp_all
+        simpa [want, gradData] using toPar_final_some D hs _ _ htag'
+  refine ⟨?_, ?_, ?_, ?_⟩
+  · rw [gradientOne_formable m gf hgf hF, p1, ok_bind, f1, ok_bind, hdir, ok_bind]
+    exact tail none none (Or.inl rfl) (Or.inl rfl)
+  · rw [gradientOne_formable m gf hgf hF, p2, ok_bind, f2, ok_bind, hdir, ok_bind]
+    exact tail none none (Or.inl rfl) (Or.inl rfl)
+  · intro b
+    rw [gradientOne_formable m gf hgf hF, p3 b, ok_bind, f3 b, ok_bind, hdir, ok_bind]
+    exact tail _ _ (Or.inr rfl) (Or.inr rfl)
+  · intro b
+    rw [gradientOne_formable m gf hgf hF, p4 b, ok_bind, f4 b, ok_bind, hdir, ok_bind]
+    exact tail _ _ (Or.inr rfl) (Or.inr rfl)
+
+/-- **Defect (stale `is_par` flag).**  Domain geometry `par2fun p = 2p`, `fun2par f = f/2`, with the
+    correct `gradient(g, x) = 2g` written so that the result inherits the subclass of `g`; `F = id`
+    with a gradient function whose result inherits the subclass of `wrt`.  For the plain parameter
+    the gradient of direction `6` is `12`; for the same parameter held in a CUQIarray of the domain
+    geometry the code returns `fun2par 12 = 6`. -/
+theorem gradient_stale_flag_counterexample :
+    let D : Geom Int := { gid := 0, p2f := fun p => 2 * p, f2p := fun f => pure (f / 2), identityType := false,
+                          grad := some (lift2 .arg1 (fun g _ => 2 * g)), parDim := 1 }
+    let R : Geom Int := { gid := 1, p2f := id, f2p := pure, identityType := true, grad := none, parDim := 1 }
+    let m : ModelObj Int Int := { forwardFunc := fun v => pure v,
+                                  gradientFunc := some (fun d w => pure (lift2 .arg2 (fun d _ => d) d w)),
+                                  rangeGeom := R, domainGeom := D, nonDefaultArgs := ["x"] }
+    gradientOne m ⟨6, none⟩ ⟨5, none⟩ true true = .ok ⟨12, none⟩
+    ∧ gradientOne m ⟨6, none⟩ ⟨5, some ⟨true, 0⟩⟩ true true = .ok ⟨6, some ⟨true, 0⟩⟩ := by
+  refine ⟨by rfl, by rfl⟩
+
+/-- `gradient` for a plain direction and a plain parameter vector -/
+lemma gradientOne_plain (m : ModelObj α β) (gf : Val β → Val α → Except Err (Val α)) (g₀ : β → α → α)
+    (hgf : m.gradientFunc = some gf) (hG : GradLike gf g₀) (hF : Formable m) (d : β) (x : α) :
+    gradientOne m ⟨d, none⟩ ⟨x, none⟩ true true =
+      match m.domainGeom.grad with
+      | some gg => toPar m.domainGeom (gg ⟨g₀ (m.rangeGeom.p2f d) (m.domainGeom.p2f x), none⟩ ⟨x, none⟩) false true
+      | none => m.domainGeom.f2p (g₀ (m.rangeGeom.p2f d) (m.domainGeom.p2f x)) >>= fun p => pure ⟨p, none⟩ := by
+  rw [gradientOne_formable m gf hgf hF]
+  have p1 : toPar m.domainGeom ⟨x, none⟩ false true = .ok ⟨x, none⟩ := by simp [toPar]
+  have f1 : toFun m.domainGeom ⟨x, none⟩ true = .ok ⟨m.domainGeom.p2f x, none⟩ := by simp [toFun]
+  have hdir : toFun m.rangeGeom ⟨d, none⟩ true = .ok ⟨m.rangeGeom.p2f d, none⟩ := by simp [toFun]
+  obtain ⟨t, hg, ht⟩ := hG ⟨m.rangeGeom.p2f d, none⟩ ⟨m.domainGeom.p2f x, none⟩
+  change gf _ _ = .ok ⟨g₀ (m.rangeGeom.p2f d) (m.domainGeom.p2f x), t⟩ at hg
+  change t = none ∨ t = none ∨ t = none at ht
+  have : t = none := by rcases ht with h | h | h <;> exact h
+  subst this
+  rw [p1, ok_bind, f1, ok_bind, hdir, ok_bind, hg, ok_bind]
+  cases m.domainGeom.grad with
+  | some gg => rfl
+  | none => exact toPar_plain _ _
+
+/-! ## 5. gradient = transposed Jacobian of the parameter-to-output map (analysis) -/
+
+section analytic
+open scoped RealInnerProductSpace
+
+variable {V W : Type} [NormedAddCommGroup V] [InnerProductSpace ℝ V]
+  [NormedAddCommGroup W] [InnerProductSpace ℝ W]
+
+/-- **Chain rule, domain geometry with `gradient`.**  Let the range geometry be identity-like
+    (`par2fun_R` a linear isometry `eR`, `fun2par_R` its inverse), let the forward function `F₀` be
+    differentiable at `par2fun_D x` with derivative `F'` and the domain geometry's `par2fun_D` at
+    `x` with derivative `G'`, let the user's gradient function be the direction-Jacobian product of
+    `F₀` (`⟪g₀ d f, w⟫ = ⟪d, F' w⟫`) and the geometry's `gradient` the direction-Jacobian product of
+    `par2fun_D` (`⟪gg₀ g x, v⟫ = ⟪g, G' v⟫`).  Then `forward` computes
+    `x ↦ eR⁻¹ (F₀ (par2fun_D x))` on parameters, that map has derivative `eR⁻¹ ∘ F' ∘ G'` at `x`, and
+    `gradient(d, x)` returns a plain array `r` with `⟪r, v⟫ = ⟪d, (eR⁻¹ ∘ F' ∘ G') v⟫` for all `v`,
+    i.e. `r` is the transposed Jacobian of the parameter-to-output map applied to `d`. -/
+theorem gradient_chain_rule_geometry_gradient (m : ModelObj V W)
+    (F₀ : V → W) (hfw : FuncLike m.forwardFunc F₀)
+    (gf : Val W → Val V → Except Err (Val V)) (g₀ : W → V → V)
+    (hgf : m.gradientFunc = some gf) (hG : GradLike gf g₀)
+    (gg : Val V → Val V → Val V) (gg₀ : V → V → V)
+    (hgrad : m.domainGeom.grad = some gg) (hGG : GeomGradLike gg gg₀)
+    (eR : W ≃ₗᵢ[ℝ] W) (hRp : m.rangeGeom.p2f = eR) (hRf : m.rangeGeom.f2p = fun w => .ok (eR.symm w))
+    (hRi : m.rangeGeom.identityType = true)
+    (x : V) (F' : V →L[ℝ] W) (G' : V →L[ℝ] V)
+    (hF : HasFDerivAt F₀ F' (m.domainGeom.p2f x)) (hP : HasFDerivAt m.domainGeom.p2f G' x)
+    (hVJP : ∀ d w, ⟪g₀ d (m.domainGeom.p2f x), w⟫ = ⟪d, F' w⟫)
+    (hGVJP : ∀ g v, ⟪gg₀ g x, v⟫ = ⟪g, G' v⟫) (d : W) :
+    (∀ y, applyOne m.forwardFunc m.rangeGeom m.domainGeom ⟨y, none⟩ true
+            = .ok ⟨eR.symm (F₀ (m.domainGeom.p2f y)), none⟩)
+    ∧ HasFDerivAt (fun y => eR.symm (F₀ (m.domainGeom.p2f y)))
+        ((eR.symm.toContinuousLinearEquiv : W →L[ℝ] W).comp (F'.comp G')) x
+    ∧ ∃ r, gradientOne m ⟨d, none⟩ ⟨x, none⟩ true true = .ok ⟨r, none⟩
+        ∧ ∀ v, ⟪r, v⟫ = ⟪d, eR.symm (F' (G' v))⟫ := by
+  have hForm : Formable m := ⟨by simp [hgf], hRi, Or.inl (by simp [hgrad])⟩
+  refine ⟨?_, ?_, ?_⟩
+  · intro y
+    rw [applyOne_plain_par _ _ _ F₀ hfw, outOf, hRf]; rfl
+  · exact ((eR.symm.toContinuousLinearEquiv : W →L[ℝ] W).hasFDerivAt).comp x (hF.comp x hP)
+  · obtain ⟨hd, htag⟩ := hGG ⟨g₀ (m.rangeGeom.p2f d) (m.domainGeom.p2f x), none⟩ ⟨x, none⟩
+    have htag' : (gg ⟨g₀ (m.rangeGeom.p2f d) (m.domainGeom.p2f x), none⟩ ⟨x, none⟩).tag = none := by
+      rcases htag with h | h | h <;> exact h
+    refine ⟨gg₀ (g₀ (m.rangeGeom.p2f d) (m.domainGeom.p2f x)) x, ?_, ?_⟩
+    · rw [gradientOne_plain m gf g₀ hgf hG hForm, hgrad]
+      dsimp only at hd htag' ⊢
+      generalize gg ⟨g₀ (m.rangeGeom.p2f d) (m.domainGeom.p2f x), none⟩ ⟨x, none⟩ = v at hd htag' ⊢
+      obtain ⟨vd, vt⟩ := v
+      dsimp only at hd htag'
+      subst hd htag'
+      simp [toPar]
+    · intro v
+      rw [hGVJP, hVJP, hRp, LinearIsometryEquiv.inner_map_eq_flip]
+
+/-- **Chain rule, identity-like domain geometry** (`par2fun_D` a linear isometry `eD` — identity or
+    reshaping — with `fun2par_D` its inverse, no `gradient` attribute): `gradient(d, x)` returns
+    `r = eD⁻¹ (g₀ (eR d) (eD x))` and `⟪r, v⟫ = ⟪d, (eR⁻¹ ∘ F' ∘ eD) v⟫`, the transposed Jacobian of
+    `x ↦ eR⁻¹ (F₀ (eD x))` applied to `d`. -/
+theorem gradient_chain_rule_identity_like (m : ModelObj V W)
+    (F₀ : V → W) (hfw : FuncLike m.forwardFunc F₀)
+    (gf : Val W → Val V → Except Err (Val V)) (g₀ : W → V → V)
+    (hgf : m.gradientFunc = some gf) (hG : GradLike gf g₀)
+    (hgrad : m.domainGeom.grad = none) (hDi : m.domainGeom.identityType = true)
+    (eD : V ≃ₗᵢ[ℝ] V) (hDp : m.domainGeom.p2f = eD) (hDf : m.domainGeom.f2p = fun f => .ok (eD.symm f))
+    (eR : W ≃ₗᵢ[ℝ] W) (hRp : m.rangeGeom.p2f = eR) (hRf : m.rangeGeom.f2p = fun w => .ok (eR.symm w))
+    (hRi : m.rangeGeom.identityType = true)
+    (x : V) (F' : V →L[ℝ] W) (hF : HasFDerivAt F₀ F' (eD x))
+    (hVJP : ∀ d w, ⟪g₀ d (eD x), w⟫ = ⟪d, F' w⟫) (d : W) :
+    (∀ y, applyOne m.forwardFunc m.rangeGeom m.domainGeom ⟨y, none⟩ true
+            = .ok ⟨eR.symm (F₀ (eD y)), none⟩)
+    ∧ HasFDerivAt (fun y => eR.symm (F₀ (eD y)))
+        ((eR.symm.toContinuousLinearEquiv : W →L[ℝ] W).comp (F'.comp (eD.toContinuousLinearEquiv : V →L[ℝ] V))) x
+    ∧ ∃ r, gradientOne m ⟨d, none⟩ ⟨x, none⟩ true true = .ok ⟨r, none⟩
+        ∧ ∀ v, ⟪r, v⟫ = ⟪d, eR.symm (F' (eD v))⟫ := by
+  have hForm : Formable m := ⟨by simp [hgf], hRi, Or.inr hDi⟩
+  refine ⟨?_, ?_, ?_⟩
+  · intro y
+    rw [applyOne_plain_par _ _ _ F₀ hfw, outOf, hRf, hDp]; rfl
+  · exact ((eR.symm.toContinuousLinearEquiv : W →L[ℝ] W).hasFDerivAt).comp x
+      (hF.comp x ((eD.toContinuousLinearEquiv : V →L[ℝ] V).hasFDerivAt))
+  · refine ⟨eD.symm (g₀ (eR d) (eD x)), ?_, ?_⟩
+    · rw [gradientOne_plain m gf g₀ hgf hG hForm, hgrad]
+      simp only [hDf, hDp, hRp, ok_bind]
+      rfl
+    · intro v
+      rw [LinearIsometryEquiv.inner_map_eq_flip eD.symm, LinearIsometryEquiv.symm_symm, hVJP,
+        LinearIsometryEquiv.inner_map_eq_flip eR]
+
+/-- non-vacuity on `ℝ`: `F₀ f = f²`, identity geometries, gradient function `g₀ d f = 2 f d` -/
+example (x d v : ℝ) : ⟪(2 * x * d : ℝ), v⟫ = ⟪d, (2 * x) * v⟫ := by
+  simp only [Real.inner_apply]; ring
+
+end analytic
+
+/-! ## 6. the `jacobian=` wrapper and the matrix-backed linear model compute transposed products -/
+
+section linalg
+variable {K : Type} [CommSemiring K]
+
+lemma dot_nil_left (v : List K) : dot ([] : List K) v = 0 := by simp [dot]
+lemma dot_nil_right (a : List K) : dot a ([] : List K) = 0 := by cases a <;> simp [dot]
+
+lemma vadd_length (a b : List K) (h : a.length = b.length) : (vadd a b).length = a.length := by
+  induction a generalizing b with
+  | nil => simp [vadd]
+  | cons x xs ih =>
+    cases b with
+    | nil => simp at h
+    | cons y ys => simp [vadd, ih ys (by simpa using h)]
+
+lemma dot_vadd (a b v : List K) (h : a.length = b.length) :
+    dot (vadd a b) v = dot a v + dot b v := by
+  induction a generalizing b v with
+  | nil =>
+    cases b with
+    | nil => simp [vadd, dot]
+    | cons y ys => simp at h
+  | cons x xs ih =>
+    cases b with
+    | nil => simp at h
+    | cons y ys =>
+      cases v with
+      | nil => simp [vadd, dot]
+      | cons z zs =>
+        simp only [vadd, dot, ih ys zs (by simpa using h)]
+        ring
+
+lemma dot_vscale (c : K) (a v : List K) : dot (vscale c a) v = c * dot a v := by
+  induction a generalizing v with
+  | nil => simp [vscale, dot]
+  | cons x xs ih =>
+    cases v with
+    | nil => simp [vscale, dot]
+    | cons z zs =>
+      have := ih zs
+      simp only [vscale, List.map_cons, dot] at this ⊢
+      rw [this]; ring
+
+lemma dot_vzero (n : ℕ) (v : List K) : dot (vzero n : List K) v = 0 := by
+  induction n generalizing v with
+  | zero => simp [vzero, dot]
+  | succ k ih =>
+    cases v with
+    | nil => simp [vzero, List.replicate_succ, dot]
+    | cons z zs =>
+      have := ih zs
+      simp only [vzero, List.replicate_succ, dot] at this ⊢
+      rw [this]; simp
+
+lemma vecMat_length (n : ℕ) (d : List K) (J : List (List K)) (hJ : ∀ r ∈ J, r.length = n) :
+    (vecMat n d J).length = n := by
+  induction d generalizing J with
+  | nil => simp [vecMat, vzero]
+  | cons x xs ih =>
+    cases J with
+    | nil => simp [vecMat, vzero]
+    | cons r rs =>
+      have hr : r.length = n := hJ r (by simp)
+      have hrs : ∀ r' ∈ rs, r'.length = n := fun r' h' => hJ r' (by simp [h'])
+      simp only [vecMat]
+      rw [vadd_length _ _ (by simp [vscale, hr, ih rs hrs])]
+      simp [vscale, hr]
+
+/-- **`direction @ jacobian(wrt)` is the transposed-Jacobian product**: for every matrix `J` with
+    rows of length `n` and all vectors `d`, `v`: `⟨d J, v⟩ = ⟨d, J v⟩` (the defining relation of
+    `Jᵀ d`), for the list implementation the driver executes, over every commutative semiring. -/
+theorem vecMat_vjp (n : ℕ) (d : List K) (J : List (List K)) (hJ : ∀ r ∈ J, r.length = n) (v : List K) :
+    dot (vecMat n d J) v = dot d (mulVec J v) := by
+  induction d generalizing J with
+  | nil => simp [vecMat, dot_vzero, dot_nil_left]
+  | cons x xs ih =>
+    cases J with
+    | nil => simp [vecMat, dot_vzero, mulVec, dot_nil_right]
+    | cons r rs =>
+      have hr : r.length = n := hJ r (by simp)
+      have hrs : ∀ r' ∈ rs, r'.length = n := fun r' h' => hJ r' (by simp [h'])
+      simp only [vecMat, mulVec, List.map_cons, dot]
+      rw [dot_vadd _ _ _ (by simp [vscale, hr, vecMat_length n xs rs hrs]), dot_vscale, ih rs hrs]
+      rfl
+
+/-- **The `jacobian=` wrapper of `Model.__init__`**: the gradient function it installs returns
+    `direction @ jacobian(wrt)` — a CUQIarray iff `direction` is one — which is the transposed
+    Jacobian applied to the direction. -/
+theorem jacobian_wrapper (n : ℕ) (jac : List K → List (List K)) (d w : Val (List K))
+    (hJ : ∀ r ∈ jac w.data, r.length = n) :
+    (jacobianWrapper n jac d w).tag = d.tag
+    ∧ ∀ v, dot (jacobianWrapper n jac d w).data v = dot d.data (mulVec (jac w.data) v) :=
+  ⟨rfl, fun v => vecMat_vjp n d.data (jac w.data) hJ v⟩
+
+example : vecMat 2 [1, 2] [[1, 2], [3, 4]] = ([7, 10] : List ℤ) := by rfl
+
+/-- **Matrix-backed `LinearModel`**: its gradient function ignores the linearisation point and
+    applies the stored transpose to the direction; if `At` is the transpose (`At v' = v' A`), it
+    satisfies the direction-Jacobian relation `⟨At d, v⟩ = ⟨d, A v⟩` required by the chain rule. -/
+theorem linear_model_gradient (n : ℕ) (A At : List (List K)) (R D : Geom (List K))
+    (hA : ∀ r ∈ A, r.length = n) (hT : ∀ d, mulVec At d = vecMat n d A) (d w : Val (List K)) :
+    ∃ g, (linearFromMatrix A At R D).gradientFunc = some g
+      ∧ ∃ r, g d w = .ok r ∧ r.tag = d.tag ∧ ∀ v, dot r.data v = dot d.data (mulVec A v) := by
+  refine ⟨_, rfl, _, rfl, rfl, fun v => ?_⟩
+  show dot (mulVec At d.data) v = _
+  rw [hT, vecMat_vjp n _ _ hA]
+
+end linalg
 
 end CuqiVerif.C12
